@@ -1336,6 +1336,38 @@ pub fn index_field_cases(shard: usize, nshards: usize) -> Vec<HCase> {
     out
 }
 
+
+/// Compressed Source split replies around the declared decompressed size: one fragment carrying a bzip2 stream of a valid
+/// info reply, declared size below / at / above what the stream holds (and at the 4 MiB bound), checksum right or wrong.
+pub fn declared_size_cases() -> Vec<HCase> {
+    let info = b"\xFF\xFF\xFF\xFF\x49\x11name\0map\0folder\0game\0\x0a\x00\x01\x10\x00dl\x00\x00v1\0".to_vec();
+    let Some(stream) = crate::bz2::compress(&info, 9) else { return Vec::new() };
+    let n = info.len() as u32;
+    let crc = crc32fast::hash(&info);
+    let mut out = Vec::new();
+    for declared in [0u32, 1, n - 1, n, n + 1, 2 * n, 4 << 20, (4 << 20) + 1, u32::MAX] {
+        for sum in [crc, 0, !crc] {
+            let mut d = vec![0xFE, 0xFF, 0xFF, 0xFF];
+            d.extend_from_slice(&0x8000_0007u32.to_le_bytes());
+            d.push(1);
+            d.push(0);
+            d.extend_from_slice(&1248u16.to_le_bytes());
+            d.extend_from_slice(&declared.to_le_bytes());
+            d.extend_from_slice(&sum.to_le_bytes());
+            d.extend_from_slice(&stream);
+            out.push(HCase {
+                entry: Entry::Valve { engine: crate::models::valve::EngineSel::SourceNone, players: 0, rules: 0, check: false },
+                retries: 0,
+                udp_at_open: vec![],
+                udp: vec![vec![hex(&d)]],
+                tcp: vec![],
+                source: "declared-size:valve-compressed".into(),
+            });
+        }
+    }
+    out
+}
+
 pub struct C01;
 
 impl Prop for C01 {
@@ -1357,7 +1389,8 @@ impl Prop for C01 {
          order, delete / insert bytes, drop a NUL terminator, duplicate / drop / swap / splice datagrams, empty and 64 KiB datagrams, challenge storms, pre-queued replies, \
          unclosed / refused TCP), (2) protocol magic followed by random bytes, (3) pure random datagrams and streams; retries 0-2; (4) enumerated: every sequence of up to 3-4 datagrams whose \
          fragment index fields (GameSpy 3 id byte, Valve Source total/number, GoldSrc packed nibbles, GameSpy 1 queryid part and final marker) come from a small \
-         alphabet of in-range, one-past, far-past, flagged and repeated values. Oracle: the call returns Ok or Err; a \
+         alphabet of in-range, one-past, far-past, flagged and repeated values, and a compressed Source split reply declaring less / exactly / more than \
+         its bzip2 stream holds (checksum right or wrong). Oracle: the call returns Ok or Err; a \
          panic (including arithmetic overflow: the build has overflow checks on), more than 100000 transport operations in one query, or a case that does not return \
          (watchdog, confirmed in a fresh process) is a violation. non-trivial = the client received at least one non-empty reply; distinct = digest of (entry, script)"
             .into()
@@ -1374,7 +1407,13 @@ impl Prop for C01 {
 
     fn strategy(&self, _tier: Tier) -> BoxedStrategy<HCase> { hcase(false) }
 
-    fn enumerated<'a>(&'a self, _tier: Tier, shard: usize, nshards: usize) -> Box<dyn Iterator<Item = HCase> + 'a> { Box::new(index_field_cases(shard, nshards).into_iter()) }
+    fn enumerated<'a>(&'a self, _tier: Tier, shard: usize, nshards: usize) -> Box<dyn Iterator<Item = HCase> + 'a> {
+        let mut v = index_field_cases(shard, nshards);
+        if shard == 0 {
+            v.extend(declared_size_cases());
+        }
+        Box::new(v.into_iter())
+    }
 
     fn run(&self, case: &HCase) -> Outcome {
         let run = run_hostile(case);
@@ -1526,6 +1565,7 @@ impl Prop for C13 {
             }
         }
         out.extend(indexed);
+        out.extend(declared_size_cases());
         Box::new(out.into_iter())
     }
 
